@@ -162,6 +162,12 @@ class XPathContext:
 
         if schema is not None:
             self.schema = schema
+        else:
+            # A reused node tree can still carry the types applied by a previous context
+            node = self.root if self.root is not None else self.item
+            tree = getattr(node, 'tree', None)
+            if tree is not None and tree.schema is not None:
+                cast(XPathNode, node).clear_types()
 
         self.variables = dict[str, ta.ValueType]()
         if variables is not None:
